@@ -1307,14 +1307,27 @@ Definition loc_meters (t : list Z) : res fval :=
   | c :: r => do x <- float_of_text (if c =? 109 then rev r else t); Ok (fmul100 x)
   end.
 
-(* _encode_size(what, desc) as a check: int(what), _exponent_of *)
-Definition loc_size_ok (x : fval) : res unit :=
+(* float(_decode_size(_encode_size(what, desc), desc)) (fix d18c8f0: from_text keeps the value the wire form has):
+   int(what); _exponent_of = the number of digits minus one (SyntaxError below 1 and from 10^10 on); the first
+   digit times that power of ten *)
+Fixpoint loc_exp_of (w : Z) (pows : list Z) (i : Z) : option Z :=
+  match pows with
+  | [] => None
+  | p :: r => if w <? p then Some (i - 1) else loc_exp_of w r (i + 1)
+  end.
+Definition loc_pows : list Z := [1; 10; 100; 1000; 10000; 100000; 1000000; 10000000; 100000000; 1000000000; 10000000000].
+
+Definition loc_norm (x : fval) : res dbl :=
   match x with
   | FInf _ => Internal iValueError                      (* OverflowError *)
   | FFin d =>
       let w := dbl_trunc d in
-      if w =? 0 then Ok tt
-      else if (w <? 1) || (w >=? 10000000000) then Lib eSyntax else Ok tt
+      if w =? 0 then Ok (the_dbl (round_q false 0 1))
+      else match loc_exp_of w loc_pows 0 with
+           | None => Lib eSyntax
+           | Some e => if e <? 0 then Lib eSyntax
+                       else Ok (the_dbl (round_q false ((w / 10 ^ e) * 10 ^ e) 1))
+           end
   end.
 
 Definition loc_coord_ok (cd : Z * Z * Z * Z * Z) (lim : Z) : bool :=
@@ -1332,10 +1345,10 @@ Definition loc_from_text (st : tstate) : res (tval * tstate) :=
   let size := nth 0 vals (FFin loc_default_size) in
   let hp := nth 1 vals (FFin loc_default_hprec) in
   let vp := nth 2 vals (FFin loc_default_vprec) in
-  do _ <- loc_size_ok size; do _ <- loc_size_ok hp; do _ <- loc_size_ok vp;
+  do sz <- loc_norm size; do hz <- loc_norm hp; do vz <- loc_norm vp;
   if negb (loc_coord_ok (fst la) 90) || negb (loc_coord_ok (fst lo) 180) then Internal iValueError
   else if (alt <? -10000000) || (alt >=? 4284967296) then Internal iValueError
-  else Ok (VLoc (fst la) (fst lo) alt (the_dbl size) (the_dbl hp) (the_dbl vp), snd ts).
+  else Ok (VLoc (fst la) (fst lo) alt sz hz vz, snd ts).
 
 (* Gateway._check *)
 Definition gw_check (g a : Z) (gw : gwval) : res tval :=
